@@ -52,9 +52,10 @@ def contract(qualname, **kw):
     return deco
 
 
-def spec(fn=None, *, recursive=False):
+def spec(fn=None, *, recursive=False, opaque=False, reads=()):
+    """opaque=True: calls are uninterpreted applications; the body is only visible through reveal(f(args))."""
     def deco(f):
-        f.__pyvc_spec__ = {"recursive": recursive}
+        f.__pyvc_spec__ = {"recursive": recursive, "opaque": opaque, "reads": list(reads)}
         SPEC_FUNCS[f"{f.__module__}.{f.__qualname__}"] = f
         return f
     return deco(fn) if fn is not None else deco
@@ -68,9 +69,21 @@ class Lemma:
 
 def lemma(types, serves=(), name=None):
     def deco(f):
-        LEMMAS.append(Lemma(f, types, list(serves), name))
+        f.__pyvc_lemma__ = Lemma(f, types, list(serves), name)
+        LEMMAS.append(f.__pyvc_lemma__)
         return f
     return deco
+
+
+def reveal(x):
+    """reveal(f(args)): make the definition of the opaque spec function f available for these arguments."""
+    return True
+
+
+def use(lemma_fn, *args):
+    """use(lemma, a, b): assume the (separately proved) lemma instantiated at a, b; remaining parameters are
+    universally quantified."""
+    return True
 
 
 # ---- spec vocabulary with native meanings (used during replay) -----------------------------------
@@ -93,3 +106,17 @@ def old(x):
 def hide(x):
     """Evaluate x without revealing spec-function definitions (no native effect)."""
     return x
+
+
+class UFun:
+    """An uninterpreted (ghost) function: a z3 UF in VCs; no native meaning."""
+
+    def __init__(self, name, argtypes, rettype):
+        self.name, self.argtypes, self.rettype = name, list(argtypes), rettype
+
+    def __call__(self, *a):
+        raise NotImplementedError(f"ghost function {self.name} has no native evaluation")
+
+
+def ufun(name, argtypes, rettype):
+    return UFun(name, argtypes, rettype)
